@@ -84,6 +84,28 @@ def generate(seed, tier="quick"):
                         for e in t["events"]:
                             if e.get("site") == sid and e.get("t") == "cmp" and len(e.get("vals", [])) == 1:
                                 e["vals"] = e["vals"] * 3
+        # `x in snapshot(v)` where v is not written as a list display: other containers, or a list that is computed
+        if xr.random() < 0.25:
+            n += 1
+            sid = f"inx{n}"
+            arg, prev, members, others = xr.choice([
+                ("(1, 2, 3)", ["tuple", [["int", 1], ["int", 2], ["int", 3]]], [1, 3], [7]),
+                ("{1, 2, 3}", ["set", [["int", 1], ["int", 2], ["int", 3]]], [2], [0]),
+                ('{"a": 1, "b": 2}', ["dict", [[["str", "a"], ["int", 1]], [["str", "b"], ["int", 2]]]], ["a"], ["z", 1]),
+                ('"abcdef"', ["str", "abcdef"], ["cd", "a"], ["x"]),
+                ("list(range(4))", ["list", [["int", i] for i in range(4)]], [0, 3], [4]),
+                ("[0, 1] * 2", ["list", [["int", 0], ["int", 1], ["int", 0], ["int", 1]]], [1], [2]),
+                ("[5] + [6]", ["list", [["int", 5], ["int", 6]]], [5, 6], [7]),
+                ("frozenset({1, 2})", ["frozenset", [["int", 1], ["int", 2]]], [1], [3]),
+            ])
+            f["sites"][sid] = {"op": "in", "place": xr.choice(["direct", "func", "lam", "module"]), "arg": arg, "prev": prev, "wrapped": True}
+            vals = [(["str", m] if isinstance(m, str) else ["int", m]) for m in members + (others if xr.random() < 0.5 else [])]
+            xr.shuffle(vals)
+            if f["sites"][sid]["place"] == "direct":
+                evs = [{"t": "cmp", "eid": f"inx{n}_0", "site": sid, "vals": vals, "style": xr.choice(["rec", "assert"])}]
+            else:
+                evs = [{"t": "cmp", "eid": f"inx{n}_{i}", "site": sid, "vals": [v], "style": xr.choice(["rec", "assert"])} for i, v in enumerate(vals)]
+            f["tests"].append({"name": f"test_inx{n}", "events": evs})
         # user-controlled parts inside constructor calls, equal to the default of their field, evaluated repeatedly
         if xr.random() < 0.3:
             n += 1
